@@ -1,6 +1,7 @@
 import DryocVerif.Proofs.Poly1305Main
 import DryocVerif.Proofs.Blake2bMain
 import DryocVerif.Proofs.Core
+import DryocVerif.Proofs.Blake2bExtra
 /-
 C08 — incremental hash / MAC / signing equals the one-shot result for any chunking.
 -/
@@ -45,24 +46,82 @@ theorem generichash_chunks_eq_spec (outLen : Nat) (key : Bytes) (salt personal :
         .ok (Spec.Blake2b.hashSP outLen key (salt.getD []) (personal.getD []) cs.flatten) :=
   Proofs.Blake2b.generichash_inc_eq_spec outLen key salt personal cs ho hk hs hp hlen
 
+open DryocVerif.Model.Blake2b in
+/-- **incremental = the ONE-SHOT function.**  `init(outLen, key, None, None); update(c₁); …; update(cₙ);
+finalize` equals `blake2b::hash(output, c₁ ‖ … ‖ cₙ, key)` — the right-hand side is the separate one-shot entry point
+`pub fn hash` — for ALL arguments, including invalid output / key lengths, where both sides fail the same way. -/
+theorem blake2b_chunks_eq_hash (outLen : Nat) (key : Option Bytes) (cs : List Bytes) :
+    hashChunks outLen key cs = hash outLen cs.flatten key :=
+  Proofs.Blake2b.hashChunks_eq_hash outLen key cs
+
+open DryocVerif.Model.Blake2b in
+/-- **state-level chunking law ("any partition, continued later").**  From any state reachable through `init` and
+`update`s — in particular one that already absorbed data and has a partly filled buffer — absorbing the chunks
+`c₁ … cₙ` one `update` at a time leaves the same STATE (chaining value, counter, flags, buffer) as one `update` with
+their concatenation; for every compression function. -/
+theorem blake2b_updates_eq_update (C : Compress) (st : State) (h : Proofs.Blake2b.Reachable C st)
+    (cs : List Bytes) : cs.foldl (updateC C) st = updateC C st cs.flatten :=
+  Proofs.Blake2b.foldl_updateC_eq C st h cs
+
+open DryocVerif.Model.Blake2b in
+/-- non-vacuity witness for `Reachable`: a keyed `init` succeeds and the state after a further `update` is
+reachable (for every compression function) -/
+example (C : Compress) : ∃ st, initC C 32 (some (zeros 32)) none none = .ok st ∧
+    Proofs.Blake2b.Reachable C (updateC C st [1, 2, 3]) :=
+  have hi := Proofs.Blake2b.initC_ok C 32 (some (zeros 32)) none none (by omega)
+    (by intro k hk; injection hk with hk; subst hk; exact Nat.le_of_eq List.length_replicate |>.trans (by omega))
+  ⟨_, hi, .update _ _ (.init 32 (some (zeros 32)) none none _ hi)⟩
+
+open DryocVerif.Model.Blake2b in
+/-- **classic API tie.**  For a state produced by `crypto_generichash_init(key, n, None, None)` (whatever `key` and
+`n`, as long as `init` accepted them): `crypto_generichash_final(state, output[n])` after any sequence of
+`crypto_generichash_update`s equals the one-shot `crypto_generichash(output[n], c₁ ‖ … ‖ cₙ, key)`. -/
+theorem generichash_inc_eq_oneshot (key : Option Bytes) (n : Nat) (st : State)
+    (hinit : generichashInit key n none none = .ok st) (cs : List Bytes) :
+    generichashFinal (cs.foldl generichashUpdate st) n = generichash n cs.flatten key :=
+  Proofs.Blake2b.generichash_inc_eq_oneshot key n st hinit cs
+
+open DryocVerif.Model.Blake2b in
+/-- non-vacuity witness for `generichash_inc_eq_oneshot`: `crypto_generichash_init` succeeds for a 32-byte digest
+and a 16-byte key -/
+example : ∃ st, generichashInit (some (zeros 16)) 32 none none = .ok st :=
+  ⟨_, Proofs.Blake2b.initC_ok compress 32 (some (zeros 16)) none none (by omega)
+    (by intro k hk; injection hk with hk; subst hk; exact Nat.le_of_eq List.length_replicate |>.trans (by omega))⟩
+
 /-! ### HMAC-SHA-512-256 (`crypto_auth_init` / `_update` / `_final`)
 
 The incremental SHA-512 context is modelled as the list of bytes fed so far (`sha2`'s block buffering is
-that crate's code and is not modelled), so chunking-independence of dryoc's own wrapper is immediate. -/
+that crate's code and is not modelled), so chunking-independence of dryoc's own wrapper is immediate.
+**The three theorems below therefore hold by model design**: they say that dryoc's wrapper forwards each chunk to
+the inner context unchanged and in order, and they carry nothing about sha2's block buffer, which is dependency
+code. -/
 
-/-- any sequence of `crypto_auth_update` calls = one call on the concatenation -/
+/-- any sequence of `crypto_auth_update` calls = one call on the concatenation.
+Holds by model design: the sha2 context is the byte list fed so far, `update` appends; this carries nothing about
+sha2's block buffer, which is dependency code. -/
 theorem hmac_updates (st : Model.Core.HmacState) (cs : List Bytes) :
     cs.foldl Model.Core.hmacUpdate st = Model.Core.hmacUpdate st cs.flatten :=
   Proofs.Core.hmac_updates st cs
 
-/-- init; update c₁; …; update cₙ; final = the one-shot `crypto_auth` of the concatenation (any `H`) -/
+/-- init; update c₁; …; update cₙ; final = the one-shot `crypto_auth` of the concatenation (any `H`).
+Holds by model design (the inner context is the byte list fed so far): it states that dryoc's `init` / `update` /
+`final` wrapper adds nothing chunk-dependent of its own, and carries nothing about sha2's block buffer, which is
+dependency code. -/
 theorem hmac_chunks_eq_oneshot (H : Bytes → Bytes) (key : Bytes) (cs : List Bytes) :
     Model.Core.hmacChunks H key cs = Model.Core.hmac H key cs.flatten :=
   Proofs.Core.hmacChunks_eq H key cs
 
-/-- … and equals RFC 2104 HMAC-SHA-512-256 of the concatenation -/
+/-- … and equals RFC 2104 HMAC-SHA-512-256 of the concatenation.  The chunking half again holds by model design
+(it carries nothing about sha2's block buffer, which is dependency code); the content is the HMAC construction. -/
 theorem hmac_chunks_eq_spec (key : Bytes) (hk : key.length = 32) (cs : List Bytes) :
     Model.Core.hmacChunks Spec.Sha512.sha512 key cs = .ok (Spec.Hmac.hmacSha512256 key cs.flatten) := by
   rw [Proofs.Core.hmacChunks_eq]; exact Proofs.Core.hmac_eq_spec_le key _ (by omega)
 
 end DryocVerif.Properties.C08
+
+section AxiomCheck
+open DryocVerif.Properties.C08
+#print axioms blake2b_chunks_eq_hash
+#print axioms blake2b_updates_eq_update
+#print axioms generichash_inc_eq_oneshot
+end AxiomCheck
